@@ -6,7 +6,7 @@ import vlib
 from props import fam_sym as F
 
 
-MANIFEST = {'technique': 'Coq proof (lia/ring, unbounded in operator entries) + differential check of extracted Op/Triplet model vs gemmi', 'text': 'Theorems over all operators: composition agrees with successive application when representable, operator* = combine modulo lattice, exact inverse for all integral unimodular rotation parts, hkl action is the transpose action with phase h.t, printed fractions are in lowest terms; LOSSLESS TRIPLET NOTATION proved unbounded for the xyz style: parse_triplet(triplet(op)) = op for every operator with non-zero rotation rows and arbitrary integer entries (induction over printed terms; strtol inverts decimal printing); hkl/abc/upper-case styles proved on every operation of every tabulated group (_partial) and covered by the exact differential run and the o_rt/o_spell oracles on gemmi.', 'note': 'Trusted: Coq kernel; extraction; harness. No axioms. C int overflow excluded by |entries| < 2^26. Decimal fractions exactly at the 0.05 tolerance are excluded from generation.'}
+MANIFEST = {'technique': 'Coq proof (lia/ring, unbounded in operator entries) + differential check of extracted Op/Triplet model vs gemmi', 'text': 'Theorems over all operators: composition agrees with successive application when representable, operator* = combine modulo lattice, exact inverse for all integral unimodular rotation parts, hkl action is the transpose action with phase h.t, printed fractions are in lowest terms; LOSSLESS TRIPLET NOTATION proved unbounded for all six letter styles (x X a A h H): parse_triplet(triplet(op, style)) = op for every operator with non-zero rotation rows (columns for reciprocal-space operators) and arbitrary integer entries (one Section proof over an abstract letter set, induction over printed terms; strtol inverts decimal printing), cross-checked on every operation of every tabulated group and by the exact differential run and the o_rt/o_spell oracles on gemmi.', 'note': 'Trusted: Coq kernel; extraction; harness. No axioms. C int overflow excluded by |entries| < 2^26. Decimal fractions exactly at the 0.05 tolerance are excluded from generation.'}
 
 def gen_cases(rng, h, n_ops, n_str):
     rots = F.table_rotations(h)
